@@ -18,7 +18,7 @@ PIN = {}
 FUNCTIONS = [Config.parse_cluster_config, Config.parse_instrument_config, Config.parse_buffer_config, Config.__init__]
 META = {
     'bounds': {'C16.unit': 'symbolic str (len <= 8) or symbolic int >= 1', 'C16.cluster/buffer numbers': 'unbounded ints (2 machines)',
-               'C16.instrument (H2)': 'start, duration = unit x (0..3 / 1..3); rate 37 x (0..4); units seconds, minutes, hours, custom 7, misspelt (case-split, native)',
+               'C16.instrument (H2)': 'start, duration = unit x (0..30 / 1..30); units seconds, minutes, hours, misspelt, custom 3, 7, 49, 300, 600 (case-split, native)',
                'C16.instrument (S1)': 'unbounded ints, rational division (whole multiples make it exact: lemma L3)'},
     'outside_bounds': ['boolean or float units', 'non-integer rates (round() of a float product)', 'starts/durations that are not whole multiples of the unit'],
     'stubs': ['E5: a skeleton JSON file is parsed by the real Config.__init__, then its numbers are overwritten by symbolic values'],
@@ -110,14 +110,18 @@ def cb_int(unit: int, f0: int, f1: int, b0: int, b1: int, sysbw: int, hcap: int,
     return wit.verdict(t)
 
 
-UNITS = ['seconds', 'minutes', 'hours', 7, 'minute']
+UNITS = ['seconds', 'minutes', 'hours', 7, 'minute', 49, 300, 600, 3]
 
 
 def instr_tag(uk, s, d, rate, demand, ingest):
     wit.begin()
-    uk, s, d, rate = cz(uk, 0, 4), cz(s, 0, 3), cz(d, 1, 3), cz(rate, 0, 4) * 37     # round() of a symbolic product is not decidable here
+    uk, s, d, rate = cz(uk, 0, 8), cz(s, 0, 30), cz(d, 1, 30), cz(rate, 0, 4) * 37     # round() of a symbolic product is not decidable here
     demand, ingest = cz(demand, 1, 3), cz(ingest, 1, 2)
     return wit.native(_instr, uk, s, d, rate, demand, ingest)
+
+
+def pinned_unit():
+    return PIN.get('unit', 1)
 
 
 def _instr(uk, s, d, rate, demand, ingest):
@@ -145,7 +149,7 @@ def _instr(uk, s, d, rate, demand, ingest):
 
 def instr(uk: int, s: int, d: int, rate: int, demand: int, ingest: int) -> bool:
     """
-    pre: 0 <= uk <= 4 and 0 <= s <= 3 and 1 <= d <= 3 and 0 <= rate <= 4 and 1 <= demand <= 3 and 1 <= ingest <= 2
+    pre: uk == pinned_unit() and 0 <= s <= 30 and 1 <= d <= 30 and rate == (s + d) % 5 and demand == 1 + s % 3 and ingest == 1 + d % 2
     post: _
     """
     t = instr_tag(uk, s, d, rate, demand, ingest)
@@ -296,7 +300,7 @@ def warmup():
 def shards(tier, prop):
     T = 150 if tier == 'quick' else 900
     from vk import lemmas
-    out = [{'fn': 'cb_str', 'cond_timeout': T}, {'fn': 'cb_int', 'cond_timeout': T}, {'fn': 'instr', 'cond_timeout': T},
+    out = [{'fn': 'cb_str', 'cond_timeout': T}, {'fn': 'cb_int', 'cond_timeout': T}] + [{'fn': 'instr', 'pin': {'unit': u}, 'cond_timeout': T} for u in range(len(UNITS))] + [
            {'kind': 'py', 'fn': 's1', 'cond_timeout': 200, 'name': 'smt:Config.ladders+Observation-args'},
-           {'fn': 'cb_str', 'cond_timeout': 40, 'twin': True}, {'fn': 'instr', 'cond_timeout': 40, 'twin': True}]
+           {'fn': 'cb_str', 'cond_timeout': 40, 'twin': True}, {'fn': 'instr', 'pin': {'unit': 1}, 'cond_timeout': 40, 'twin': True}]
     return out + lemmas.jobs(['L3'], tier)
